@@ -62,6 +62,8 @@ def gen_window_cmds(rng, sessions, sel, sizes, next_id):
             next_id[0] += 1
         else:
             c.update(uid=False)
+        if rng.random() < 0.2 and k in ("Fetch", "Store", "Copy", "Search"):
+            c["stall"] = rng.choice([0.05, 0.2])
         cmds.append(c)
     return cmds
 
@@ -81,7 +83,7 @@ def gen_conflict_window(rng, sessions, sel, sizes, next_id):
     other = lambda m: "b" if m == "inbox" else "inbox"  # noqa
     same = [ss for ss in by_mb.values() if len(ss) >= 2]
     kind = rng.choice(["copy_store", "fetch_store", "move_store", "opposite", "expunge_fetch", "copy_expunge",
-                       "search_store", "search_fetch"] +
+                       "search_store", "search_fetch", "expunge_search", "three_way", "three_way"] +
                       (["copy_late"] * 3 if len(sessions) >= 4 else []))
     cmds = []
     if kind == "copy_late" and same:
@@ -116,6 +118,32 @@ def gen_conflict_window(rng, sessions, sel, sizes, next_id):
             cmds = [base(a, "Fetch", peek=False), base(b, "Store", mode="+", flags=fl, uid=True)]
         elif kind == "move_store":
             cmds = [base(a, "Move", mbox=other(m)), base(b, "Store", mode="+", flags=fl)]
+        elif kind == "expunge_search":
+            # a command that uses sequence numbers queued right behind an EXPUNGE that renumbers the mailbox
+            follower = rng.choice([base(a, "Search", set=[], key=rng.choice(["ALL", "UNSEEN", "NOT DELETED"])),
+                                   base(a, "Fetch", set=[[sizes[m], sizes[m]]]),
+                                   base(a, "Store", set=[[sizes[m], sizes[m]]], mode="+", flags=["Flagged"])])
+            cmds = [dict(base(b, "Expunge", set=[]), pre=[(b, "STORE 1 +FLAGS.SILENT (\\Deleted)")]),
+                    dict(follower, delay=rng.choice([0, 0.001, 0.01]))]
+            return cmds
+        elif kind == "three_way" and len(sessions) >= 3:
+            # two commands that do not overlap each other run together; a third one overlaps only the second
+            # (a session that has the other mailbox selected is moved over first)
+            c3 = ss[2] if len(ss) >= 3 else [x for x in sessions if x not in (a, b)][0]
+            pre3 = []
+            if sel[c3] != m:
+                pre3 = [(c3, f"SELECT {m}")]
+                sel[c3] = m
+            n = max(sizes[m], 2)
+            first = base(a, "Fetch", set=[[1, 1]], peek=True)
+            second = rng.choice([base(b, "Fetch", set=[[2, STAR]], peek=rng.random() < 0.5),
+                                 base(b, "Copy", set=[[2, STAR]], mbox=other(m)),
+                                 base(b, "Store", set=[[2, STAR]], mode="+", flags=["k1"])])
+            third = rng.choice([base(c3, "Store", set=[[2, STAR]], mode=rng.choice("+-"), flags=rng.sample(["Flagged", "Seen"], 1)),
+                                base(c3, "Fetch", set=[[2, STAR]], peek=False),
+                                base(c3, "Copy", set=[[n, n]], mbox=other(m))])
+            # the first two have slow clients, so they are still running when the third asks to run
+            return [dict(first, pre=pre3, stall=0.2), dict(second, delay=0.0005, stall=0.2), dict(third, delay=0.05)]
         elif kind == "search_store":
             cmds = [base(a, "Search", set=[], key=rng.choice(["SEEN", "UNSEEN", "FLAGGED", "KEYWORD k1"]), uid=rng.random() < 0.5),
                     base(b, "Store", mode=rng.choice("+-"), flags=rng.sample(["Seen", "Flagged", "k1"], 2))]
@@ -257,7 +285,12 @@ async def run_windows(d: MailDriver, rng, sessions, nwin, stats, pop3=False):
                 await asyncio.sleep(c["delay"])
             if c.get("slow"):
                 d.slow[c["mbox"]] = c["slow"]
-            return await w.cmd(c["sess"], render(c), tag=t, kind=c["act"].upper(), uid=c["uid"], settle=0)
+            if c.get("stall"):
+                w.sessions[c["sess"]].stall = c["stall"]
+            try:
+                return await w.cmd(c["sess"], render(c), tag=t, kind=c["act"].upper(), uid=c["uid"], settle=0)
+            finally:
+                w.sessions[c["sess"]].stall = 0
 
         results = await asyncio.gather(*[issue(c, t) for c, t in zip(cmds, tags)])
         d.slow.clear()
@@ -301,6 +334,7 @@ async def run_windows(d: MailDriver, rng, sessions, nwin, stats, pop3=False):
             c2.pop("pre", None)
             c2.pop("delay", None)
             c2.pop("slow", None)
+            c2.pop("stall", None)
         windows.append({"init": init, "cmds": rec, "final": final, "nsess": len(sessions),
                         "admits": [a for a in d.admits if a["tag"] in tags]})
         # track what the sessions have selected (BYE/close would show in ss)
